@@ -432,6 +432,12 @@ class SNum:
 
     # ---- comparisons
     def _cmp(self, o, op, swap=False):
+        if builtins.type(o) is float and o in (float("inf"), float("-inf")):
+            # every symbolic number is finite
+            below = o > 0  # self < +inf
+            if swap:
+                below = not below
+            return {LT: below, LE: below, EQ: False, NE: True}[op]
         o2 = self._coerce(o)
         if o2 is None:
             return NotImplemented
